@@ -187,9 +187,26 @@ def gen_case(rng):
     dt = 2.0 ** -rng.randint(3, 6)
     op, _, n = gen.run_op(rng, dt_si=dt, steps=(3, 10), unit=rng.choice(['sec', 'ms', 'min']))
     spec['ops'] = [op]
-    if rng.random() < 0.3:
+    r = rng.random()
+    if r < 0.2:
         op2, _, _ = gen.run_op(rng, dt_si=dt, steps=(2, 5), unit='sec')
         spec['ops'].append(op2)
+    elif r < 0.45:
+        # continuation with another time step: the recorded instants are not equally spaced
+        dt2 = dt * rng.choice([0.5, 0.25, 2, 3, 1.5])
+        op2, _, _ = gen.run_op(rng, dt_si=dt2, steps=(2, 6), unit=rng.choice(['sec', 'ms']))
+        spec['ops'].append(op2)
+        if rng.random() < 0.3:
+            op3, _, _ = gen.run_op(rng, dt_si=dt, steps=(2, 4), unit='sec')
+            spec['ops'].append(op3)
+    elif r < 0.65:
+        # results are looked at, then the powertrain is reset and simulated again on another time grid
+        dt2 = dt * rng.choice([0.5, 2, 3, 1.5, 1])
+        op2, _, _ = gen.run_op(rng, dt_si=dt2, steps=(3, 9), unit=rng.choice(['sec', 'ms']))
+        spec['ops'] += [{'op': 'snap', 'frac': rng.uniform(0.1, 0.9)}, {'op': 'reset'},
+                        {'op': 'init', 'pos': spec['init']['pos'], 'speed': spec['init']['speed']}, op2]
+        if rng.random() < 0.5:
+            spec['ops'].insert(1, {'op': 'snap', 'frac': rng.uniform(0.1, 0.9)})
     queries = []
     for _ in range(rng.randint(4, 10)):
         if rng.random() < 0.5:
@@ -220,7 +237,8 @@ def run_C18(ctx):
             vs = [v for k, v in enumerate(VARS) if mask >> k & 1]
             case['queries'].append({'at': ['between', mask, 0.37, 'sec'], 'vars': vs, 'units': pick_units(rng)})
         eval_snapshot(ctx, case)
-    ctx.rule = ('simulated powertrains with rich optional data; target times at recorded instants (also re-expressed in another '
+    ctx.rule = ('simulated powertrains with rich optional data, single runs, continuations with the same or another time step (unequally spaced '
+                'instants), and snapshot / reset / re-simulation on another grid; target times at recorded instants (also re-expressed in another '
                 'time unit) and between them, in any time unit; all variables or random non-empty subsets (thorough: all 2047 '
                 'subsets); random output units; the returned table is compared cell by cell with the interpolation of the '
                 'recorded samples and the exported CSV files are re-read and compared; every case is non-trivial')
